@@ -24,7 +24,7 @@ static int is_tsan;
 enum { B_FULL = 0, B_RESUME_A, B_RESUME_B, B_RESUME_A2, B_ROTATE, B_RESUME_A_NOEMS, B_RESUME_UNKNOWN, B_FULL_P384, B_NBODY };
 static const char *bname[] = { "full", "resume(A)", "resume(B)", "resume(A,2nd client)", "rotate-ticket-keys", "resume(A, extended master secret off)", "resume(unknown id)", "full(client enables only secp384r1)" };
 
-typedef struct { const char *name; int ver, kx; uint16_t suite; int tickets; int prefill; int nthreads; int body[SR_MAXT]; int maxbound_tsan, maxbound; } scen_t;
+typedef struct { const char *name; int ver, kx; uint16_t suite; int tickets; int prefill; int nthreads; int body[SR_MAXT]; int maxbound_tsan, maxbound; int cb; } scen_t;
 static const scen_t scens[] = {
     { "id-resume-x2-same-session", V_TLS12, KX_PSK, 0, 0, 0, 2, { B_RESUME_A, B_RESUME_A2 }, 2, 3 },
     { "id-resume-vs-full-vs-resume", V_TLS12, KX_PSK, 0, 0, 0, 3, { B_RESUME_A, B_FULL, B_RESUME_B }, 1, 2 },
@@ -38,6 +38,15 @@ static const scen_t scens[] = {
     { "ecdhe-cache-hit-vs-regeneration-for-another-curve", V_TLS12, KX_ECDHE_RSA, TLS_ECDHE_RSA_WITH_AES_128_GCM_SHA256, 0, 0, 2, { B_FULL, B_FULL_P384 }, 1, 2 },
     { "id-resume-refused-ems-mismatch-vs-full", V_TLS12, KX_PSK, 0, 0, 0, 2, { B_RESUME_A_NOEMS, B_FULL }, 1, 2 },
     { "id-resume-refused-unknown-id-vs-resume", V_TLS12, KX_PSK, 0, 0, 0, 2, { B_RESUME_UNKNOWN, B_RESUME_A }, 1, 2 },
+    /* a session-ticket callback is registered: the key lookup drops g_sessTicketLock around the user callback, so a
+       rotation can run between "key found" and "key used" (cb 1: the callback accepts a key the library has cached) */
+    { "ticket-callback-resume-vs-rotate", V_TLS12, KX_RSA, 0, 1, 0, 2, { B_RESUME_A, B_ROTATE }, 1, 2, 1 },
+    /* two sessions hold the same key in their callback windows while it is retired */
+    { "ticket-callback-resume-x2-vs-rotate", V_TLS12, KX_RSA, 0, 1, 0, 3, { B_RESUME_A, B_RESUME_B, B_ROTATE }, 1, 2, 1 },
+    /* cb 2: the tickets' key has been rotated out before the threads start; the callback of each resuming session loads
+       it again (what the API documents the callback for) */
+    { "ticket-callback-loads-missing-key-x2", V_TLS12, KX_RSA, 0, 1, 0, 2, { B_RESUME_A, B_RESUME_B }, 1, 2, 2 },
+    { "ticket-callback-loads-missing-key-vs-rotate", V_TLS12, KX_RSA, 0, 1, 0, 2, { B_RESUME_A, B_ROTATE }, 1, 2, 2 },
 };
 #define NSCEN ((int) (sizeof(scens) / sizeof(scens[0])))
 
@@ -94,14 +103,50 @@ static void body_connect(int id, sslSessionId_t *sid)
     buf_free(&w.s[0].submitted); buf_free(&w.s[1].submitted);
 }
 
+static const unsigned char tk_name1[16] = "mxv-ticket-key-1";
+static const unsigned char tk_name2[16] = "mxv-ticket-key-2";
+static const unsigned char tk_name3[16] = "mxv-ticket-key-3";
+static const unsigned char tk_sk1[32] = { 1, 2, 3, 4, 5, 6, 7, 8, 9, 10, 11, 12, 13, 14, 15, 16, 17, 18, 19, 20, 21, 22, 23, 24, 25, 26, 27, 28, 29, 30, 31, 32 };
+static const unsigned char tk_hk1[32] = { 32, 31, 30, 29, 28, 27, 26, 25, 24, 23, 22, 21, 20, 19, 18, 17, 16, 15, 14, 13, 12, 11, 10, 9, 8, 7, 6, 5, 4, 3, 2, 1 };
+static const unsigned char tk_k2[32] = { 5, 5, 5, 5, 6, 6, 6, 6, 7, 7, 7, 7, 8, 8, 8, 8, 9, 9, 9, 9, 1, 1, 1, 1, 2, 2, 2, 2, 3, 3, 3, 3 };
+
+/* the application's ticket callback (runs with g_sessTicketLock released) */
+static int32 ticket_cb_accept_cached(void *keys, unsigned char name[16], short cached)
+{
+    (void) keys; (void) name;
+    return cached ? 0 : -1;
+}
+static int32 ticket_cb_load_missing(void *keys, unsigned char name[16], short cached)
+{
+    if (cached)
+    {
+        return 0;
+    }
+    if (memcmp(name, tk_name1, 16) == 0)
+    {
+        return matrixSslLoadSessionTicketKeys((sslKeys_t *) keys, tk_name1, tk_sk1, 32, tk_hk1, 32) < 0 ? -1 : 0;
+    }
+    return -1;
+}
+
 static void body_rotate(int id)
 {
+    if (CUR->cb == 2)
+    {
+        /* key 1 is already out (prelude): the rotation adds key 3 and retires key 2 */
+        int a = matrixSslLoadSessionTicketKeys(base.s[1].keys, tk_name3, tk_k2, 32, tk_k2, 32);
+        int b = matrixSslDeleteSessionTicketKey(base.s[1].keys, (unsigned char *) tk_name2);
+        snprintf(thr_out[id], sizeof(thr_out[id]), "add%ddel%d", a, b);
+        return;
+    }
+    {
     static const unsigned char name2[16] = "mxv-ticket-key-2";
     static const unsigned char name1[16] = "mxv-ticket-key-1";
     static const unsigned char k[32] = { 5, 5, 5, 5, 6, 6, 6, 6, 7, 7, 7, 7, 8, 8, 8, 8, 9, 9, 9, 9, 1, 1, 1, 1, 2, 2, 2, 2, 3, 3, 3, 3 };
     int a = matrixSslLoadSessionTicketKeys(base.s[1].keys, name2, k, 32, k, 32);
     int b = matrixSslDeleteSessionTicketKey(base.s[1].keys, (unsigned char *) name1);
     snprintf(thr_out[id], sizeof(thr_out[id]), "add%ddel%d", a, b);
+    }
 }
 
 typedef struct { int id; } targ_t;
@@ -201,6 +246,19 @@ static void run_execution(int si, const unsigned char *prefix, int nprefix)
         }
         matrixSslDeleteSessionId(f);
     }
+    if (S->cb == 1)
+    {
+        matrixSslSetSessionTicketCallback(base.s[1].keys, ticket_cb_accept_cached);
+    }
+    else if (S->cb == 2)
+    {
+        if (matrixSslLoadSessionTicketKeys(base.s[1].keys, tk_name2, tk_k2, 32, tk_k2, 32) < 0
+            || matrixSslDeleteSessionTicketKey(base.s[1].keys, (unsigned char *) tk_name1) < 0)
+        {
+            _exit(44);
+        }
+        matrixSslSetSessionTicketCallback(base.s[1].keys, ticket_cb_load_missing);
+    }
     sidA2 = sid_clone(sidA);
     sidUnknown = sid_clone(sidA);
     sidUnknown->id[5] ^= 0x5a;   /* same shape, not in the cache */
@@ -259,7 +317,7 @@ static slot_t slots[MAXPAR];
 static char seq_outcomes[64][256];
 static int nseq;
 
-static int in_seq(const char *o)
+static int in_seq_exact(const char *o)
 {
     int i;
     for (i = 0; i < nseq; i++)
@@ -268,6 +326,29 @@ static int in_seq(const char *o)
         {
             return 1;
         }
+    }
+    return 0;
+}
+/* The property quantifies over the SESSIONS' outcomes.  The rotation thread's own return codes are compared too, with
+ * one documented exception: matrixSslDeleteSessionTicketKey refuses (del-1) to free a key a session is using at that
+ * moment - an answer no sequential order can produce and the reason the in-use mark exists.  Such an outcome is admissible
+ * iff it is a sequential outcome once the refusal is read as "deleted after the session was done with the key". */
+static int in_seq(const char *o)
+{
+    char alt[256];
+    const char *q;
+    if (in_seq_exact(o))
+    {
+        return 1;
+    }
+    q = strstr(o, "del-1");
+    if (q && strlen(o) < sizeof(alt) - 1)
+    {
+        size_t pre = (size_t) (q - o);
+        memcpy(alt, o, pre);
+        memcpy(alt + pre, "del0", 4);
+        strcpy(alt + pre + 4, q + 5);
+        return in_seq_exact(alt);
     }
     return 0;
 }
@@ -464,7 +545,7 @@ static void explore(int si, int bound, int pass_seq_only)
             }
             else if (npre == 0)
             {
-                if (!in_seq(tr->outcome) && nseq < 64)
+                if (!in_seq_exact(tr->outcome) && nseq < 64)
                 {
                     snprintf(seq_outcomes[nseq++], 256, "%s", tr->outcome);
                 }
